@@ -206,7 +206,7 @@ pub fn policy_sets(tier: Tier, schema: &cedar_policy::Schema) -> Vec<(Vec<Pol>, 
     let cands: Vec<c03::Cand> = c03::candidates(Tier::Quick).into_iter().filter(|c| c.must_accept).collect();
     let validator = cedar_policy::Validator::new(schema.clone());
     let mut valid: Vec<Pol> = Vec::new();
-    let step = tier.pick(7, 3);
+    let step = tier.pick(7, 5);
     for (i, c) in cands.iter().enumerate() {
         if i % step != 0 {
             continue;
@@ -320,7 +320,8 @@ pub fn run(tier: Tier, replay_file: Option<&str>) -> i32 {
     let nreq = requests().len();
     let base_idx: Vec<usize> = match tier {
         Tier::Quick => vec![0, 3 * nreq + 1, 17 * nreq + 2, (envs.len() / nreq - 1) * nreq + 5, 9 * nreq + 8],
-        Tier::Thorough => (0..envs.len() / nreq).step_by(9).flat_map(|s| [s * nreq + (s % nreq), s * nreq + ((s + 4) % nreq)]).collect(),
+        // 6 base environments spread over the store family and the request shapes
+        Tier::Thorough => (0..envs.len() / nreq).step_by(43).flat_map(|s| [s * nreq + (s % nreq), s * nreq + ((s + 4) % nreq)]).collect(),
     };
     let ms = masks(tier);
     ctx.set_info("masks", json!(ms.len()));
@@ -419,7 +420,8 @@ pub fn run(tier: Tier, replay_file: Option<&str>) -> i32 {
                 let concrete = auth.is_authorized(&c.creq, pset, &c.cents);
                 let via_resid = auth.is_authorized(&c.creq, &resid_set, &c.cents);
                 l.transitions += 2;
-                l.case(hash_of(&(key, ci)), "completion", true);
+                // completions of one (policy set, partial view) are distinct by construction
+                l.bulk_cases(1, "completion");
                 if let Some(d) = decision {
                     if concrete.decision() != d {
                         ctx.violation("decision:definite-decision-wrong", format!("TPE decided {d:?} but the consistent completion {:?} gives {:?}", c.req, concrete.decision()), rep(json!({"completion_request": format!("{:?}", c.req), "completion_store": serde_json::to_value(&c.store).unwrap()})));
